@@ -163,6 +163,19 @@ CHECKS = {
         "note": "PARTIAL: floating-point rounding and sqrt (stdev) are not modelled; float results are compared within a tolerance; axioms: none.",
         "design": "5/C16",
     },
+    "C17": {
+        "text": ("Theorems about the wrapper over an ABSTRACT deterministic bit generator: getrandbits(k) lies in "
+                 "[0, 2**k) for every k >= 0 and every byte string the generator may return, negative k is rejected, "
+                 "randbytes has the requested length; with the cached gauss value part of the state, setstate(getstate()) "
+                 "at any point replays the continuation of every program over random/gauss/getrandbits/randbytes and "
+                 "re-seeding restarts a fresh stream; the pinned state capture (gauss_next ignored) is REFUTED by a "
+                 "vm_compute witness. Correspondence: (a) getrandbits against the model fed with bytes recorded through "
+                 "a proxy generator; (b) implementation against implementation: call sequences over all sampling "
+                 "methods, snapshots at every position, alike-seeded twins, re-seeding, interleaved instances, all seed "
+                 "kinds, NumPy-backed and stdlib; (c) the dyce.rng.RNG default."),
+        "note": "PARTIAL: NumPy's Generator and the stdlib sampling algorithms are oracles; only the wrapper and the state-capture argument are proved; axioms: none.",
+        "design": "5/C17",
+    },
     "C18": {
         "text": ("Theorems (all inputs, any outcome type with a decidable total order): a successful draw changes "
                  "exactly the requested counts, keeps every outcome, leaves no negative count and moves the total by the "
